@@ -13,6 +13,7 @@ type Tag { id: ID! label: String }
 type Post implements Node { id: ID! title: String tags(tagIds: [ID!]!, first: Int): [Tag!] privateMeta: Meta }
 type Meta { key: String value: String }
 type User implements Node { id: ID! userName: String posts(first: Int, orderBy: String): [Post!] comments(first: Int): [Post!] bestFriend: User privateMeta: Meta
+  pinned(maxHits: Int = 5): Actor
   metaField(key: String!): String }
 type Bot implements Node { id: ID! model: String }
 union Actor = User | Bot
@@ -103,6 +104,10 @@ def run_cases():
              lambda: [Q.me().fields(U.meta_field(key="a").alias("x"), U.meta_field(key="b").alias("y"), U.posts(first=1).alias("p1").fields(P.id),
                                     U.posts(first=2).alias("p2").fields(P.title))], ["a", "b", 1, 2],
              extra=lambda p: [] if all(f"{a}:" in p["query"] for a in ("x", "y", "p1", "p2")) else ["an aliased selection is missing: " + p["query"].replace("\n", " ")])
+        case("inline-fragments-with-arguments-below-the-top-level",
+             lambda: [Q.me().fields(U.pinned(max_hits=2).on("User", U.posts(first=7).fields(P.id)).on("Bot", cf.BotFields.model))], [2, 7])
+        case("camel-case-optional-argument-left-as-none-is-omitted",
+             lambda: [Q.me().fields(U.pinned().on("Bot", cf.BotFields.model), U.posts(order_by=None).fields(P.id))], [])
         # falsy argument values are values: declared and transmitted (only None means "not given")
         case("falsy-int-argument", lambda: [Q.users(ids=["1"], first=0).fields(U.id)], [["1"], 0])
         case("empty-list-argument", lambda: [Q.users(ids=[]).fields(U.id)], [[]])
